@@ -639,7 +639,12 @@ number 1 (hydrogen, protium, deuterium, tritium).  Fails to build if an isotope 
 theorem trp_hydrogen_tuple_complete :
     ∀ i, i < Gen.PassiveFlags.registryZ.length →
       (i ∈ Gen.PassiveFlags.trpHydrogenIds ↔ Gen.PassiveFlags.registryZ[i]? = some 1) := by
-  decide
+  have hall : (List.range Gen.PassiveFlags.registryZ.length).all (fun i =>
+      decide (i ∈ Gen.PassiveFlags.trpHydrogenIds) == decide (Gen.PassiveFlags.registryZ[i]? = some 1)) = true := by
+    decide +kernel
+  intro i hi
+  have := List.all_eq_true.1 hall i (List.mem_range.2 hi)
+  simpa using this
 
 theorem listed_of_registry (comp : List (Sp α)) (hr : OverRegistry comp) :
     HydNeutralsListed comp Gen.PassiveFlags.trpHydrogenIds := by
